@@ -106,121 +106,8 @@ theorem csr_init_correct (net : Net) (user internal : List Nat)
     (hok : (initGraph net user internal).1 = Outcome.ok)
     (hst : (initGraph net user internal).2.Static)
     (hperm : net.initOrder.Perm (List.range net.nl)) :
-    Good (initGraph net user internal).2 ∧ Synced (initGraph net user internal).2 := by
-  obtain ⟨_, _, _, fmulti, fch, fJ, fL, fprev, findices, _, fndx, fdata, fsome⟩ := init_fields net user internal
-  have fsome := fsome hok
-  generalize hs0 : (initGraph net user internal).2 = s0 at *
-  have hnet : s0.net = net := by rw [← hs0]; rfl
-  obtain ⟨hends, hb, hpos, hin, hout, hmulti⟩ := hst
-  rw [hnet] at hends hb hpos hin hout hmulti
-  have hlen0 : (initG0 net).indices.length = s0.g.indices.length := by rw [findices]
-  -- positions of a link in terms of the index search
-  have hposk : ∀ k, k < net.nl →
-      getCsrDataIndex (initG0 net) (net.linkEnds k).1 (net.linkEnds k).2 = some (pos1 s0.ndx k) ∧
-      getCsrDataIndex (initG0 net) (net.linkEnds k).2 (net.linkEnds k).1 = some (pos2 s0.ndx k) := by
-    intro k hk
-    have hk' : k < net.links.length := hk
-    obtain ⟨a, b⟩ := fsome (net.links.getD k (0, 0)) (getD_mem_lt _ _ hk' _)
-    unfold pos1 pos2
-    rw [fndx, getD_map_lt _ net.links k hk' (0, 0) (0, 0)]
-    unfold Net.linkEnds
-    constructor
-    · cases h : getCsrDataIndex (initG0 net) (net.links.getD k (0, 0)).1 (net.links.getD k (0, 0)).2 with
-      | none => rw [h] at a; cases a
-      | some x => rfl
-    · cases h : getCsrDataIndex (initG0 net) (net.links.getD k (0, 0)).2 (net.links.getD k (0, 0)).1 with
-      | none => rw [h] at b; cases b
-      | some x => rfl
-  have hsync : DataOk net s0.ndx s0.status s0.g.data := by
-    intro k hk p hp
-    rw [fdata]
-    apply pass_fold s0.status s0.g.indices.length (initStep (initG0 net) s0.ndx s0.status)
-      (initStep_length (initG0 net) s0.ndx s0.status) k p (multiTable net)
-    · intro e he d hdlen
-      have he' : e ∈ s0.multi := by rw [fmulti]; exact he
-      have hE := entryOk_of_multiOk hmulti e he'
-      obtain ⟨k0, hk0, hkey, hall, _⟩ := hmulti.1 e he'
-      have hk0lt := (hall k0 hk0).1
-      obtain ⟨q1, q2⟩ := hposk k0 hk0lt
-      have b1 : pos1 s0.ndx k0 < d.length := by rw [hdlen]; exact (hb k0 hk0lt).1
-      have b2 : pos2 s0.ndx k0 < d.length := by rw [hdlen]; exact (hb k0 hk0lt).2
-      -- the two zeroed positions are the two positions of k0
-      have hz : ∀ q, (setOpt (setOpt d (getCsrDataIndex (initG0 net) e.1.1 e.1.2) 0) (getCsrDataIndex (initG0 net) e.1.2 e.1.1) 0).getD q 0
-          = if inPs s0.ndx k0 q then 0 else d.getD q 0 := by
-        intro q
-        rcases hkey with hkey | hkey
-        · rw [← hkey, q1, q2, setOpt2_read d _ _ q b1 b2]; rfl
-        · have e1 : e.1.1 = (net.linkEnds k0).2 := by rw [hkey]
-          have e2 : e.1.2 = (net.linkEnds k0).1 := by rw [hkey]
-          rw [e1, e2, q1, q2, setOpt2_read d _ _ q b2 b1]
-          by_cases c : inPs s0.ndx k0 q
-          · rw [if_pos c, if_pos (Or.symm c)]
-          · rw [if_neg c, if_neg (fun h => c (Or.symm h))]
-      have := pass_step hpos s0.g.indices.length hb s0.status e.2 hE
-        (setOpt (setOpt d (getCsrDataIndex (initG0 net) e.1.1 e.1.2) 0) (getCsrDataIndex (initG0 net) e.1.2 e.1.1) 0) d
-        (by rw [setOpt_length, setOpt_length]; exact hdlen)
-        (by
-          intro first tl hl q
-          have hf : first ∈ e.2 := by rw [hl]; exact List.mem_cons_self
-          obtain ⟨hflt, hsp⟩ := hall first hf
-          have hiff := inPs_iff_of_samePair hpos hk0lt hflt hsp q
-          rw [hz q]
-          constructor
-          · intro h; rw [if_pos (hiff.mpr h)]
-          · intro h; rw [if_neg (fun h' => h (hiff.mp h'))])
-        k hk p hp
-      exact this
-    · rw [foldl_addAt_length, List.length_replicate, hlen0]
-    · intro hno
-      have hs : single net k := by
-        apply Classical.byContradiction
-        intro hns
-        obtain ⟨e, he, hke⟩ := not_single_inMulti hmulti hk hns
-        rw [fmulti] at he
-        exact hno e he hke
-      have hne : pos1 s0.ndx k ≠ pos2 s0.ndx k := by
-        intro heq
-        obtain ⟨⟨_, _, _, c1⟩, ⟨_, _, _, c2⟩⟩ := hin k hk
-        rw [heq] at c1
-        exact (hends.1 k hk).2.2 (c2.symm.trans c1)
-      rw [accumulate_single hpos s0.g.indices.length hb (fun c => openVal (s0.status c)) k hk hs hne p hp net.initOrder _
-        (hperm.nodup_iff.mpr List.nodup_range) (fun c hc => List.mem_range.mp (hperm.mem_iff.mp hc))
-        (by rw [List.length_replicate, hlen0])]
-      have hin' : k ∈ net.initOrder := hperm.mem_iff.mpr (List.mem_range.mpr hk)
-      rw [if_pos hin']
-      have : (List.replicate (initG0 net).indices.length (0 : Int)).getD p 0 = 0 := by
-        simp only [List.getD_eq_getElem?_getD, List.getElem?_replicate]
-        split <;> rfl
-      rw [this, Int.zero_add]
-      exact okAt_openVal_single hk hs
-  have hprev : ∀ k, k < net.nl → s0.status k = s0.prev.getD k 0 := by
-    intro k hk
-    rw [fprev]
-    exact (getD_map_range s0.status _ k hk).symm
-  have hfalse : ∀ (n v : Nat), (List.replicate n false).getD v false = true → False := by
-    intro n v h
-    simp only [List.getD_eq_getElem?_getD, List.getElem?_replicate] at h
-    split at h <;> cases h
-  refine ⟨⟨?_, ?_, ?_, ?_, ?_, ⟨?_, ?_⟩, ⟨?_, ?_⟩⟩, ?_⟩
-  · unfold Sim.Static; rw [hnet]; exact ⟨hends, hb, hpos, hin, hout, hmulti⟩
-  · rw [fdata]
-    have : ∀ (es : List ((Nat × Nat) × List Nat)) (d : List Int),
-        (es.foldl (initStep (initG0 net) s0.ndx s0.status) d).length = d.length := by
-      intro es
-      induction es with
-      | nil => intro d; rfl
-      | cons e es ih => intro d; rw [List.foldl_cons, ih, initStep_length]
-    rw [this, foldl_addAt_length, List.length_replicate, hlen0]
-  · rw [hnet]; exact DataOk_congr hprev hsync
-  · intro k hk hne
-    rw [hnet] at hk
-    exact absurd (hprev k hk) hne
-  · intro c hc; rw [fch] at hc; cases hc
-  · rw [fJ, hnet, List.length_replicate]
-  · intro v hv; rw [fJ] at hv; exact (hfalse _ _ hv).elim
-  · rw [fL, hnet, List.length_replicate]; rfl
-  · intro l hl; rw [fL] at hl; exact (hfalse _ _ hl).elim
-  · unfold Synced; rw [hnet]; exact hsync
+    Good (initGraph net user internal).2 ∧ Synced (initGraph net user internal).2 :=
+  init_good net user internal hok hst hperm
 
 /-! ## 4. stored results -/
 
@@ -240,7 +127,7 @@ end Wntr.Isolation
 namespace Wntr.Isolation
 
 def exNet : Net :=
-  { n := 3, links := [(0, 1), (1, 0), (1, 2)], valve := [false, false, false], initOrder := [0, 1, 2], sources := [0] }
+  { n := 3, links := [(0, 1), (1, 0), (1, 2)], kind := [.pipe, .pipe, .pipe], initOrder := [0, 1, 2], sources := [0] }
 
 def exSim : Sim := (initGraph exNet [1, 1, 1] [2, 2, 2]).2
 
